@@ -63,7 +63,10 @@ def applyRec (c : Cfg) (p : Idx) (pos : Pos) (h : Hdr) (initializing : Bool) : I
       else
         -- metadata-only update: old record & block; a missing header is ignored
         match p.getHeader oldName with
-        | (p, .ok old) => p.updateHeaderMetadata (Idx.mkRow h old.recd old.blk pos.recd pos.blk)
+        | (p, .ok old) =>
+          -- the content stays in place: without the size record the old size is kept
+          let h' := if (h.pax.get recSTFSRecordUncompressedSize).isNone then { h with size := old.hdr.size } else h
+          p.updateHeaderMetadata (Idx.mkRow h' old.recd old.blk pos.recd pos.blk)
         | (p, .error _) => p
     if moveAfter then
       match p.moveHeader oldName h.name pos.recd pos.blk with
